@@ -219,6 +219,20 @@ func (V *Verifier) frameCheck(fn *ssa.Function) []frameFinding {
 							}
 							args = append(args, cc.Args...)
 							matched := false
+							// substitute the callee's parameter names in the location by the
+							// caller-side paths of the arguments and compare with the caller's
+							// own located assigns (e.g. callee "p.errs" with p := caller's p)
+							subst := loc
+							for i, pn := range cn.Params {
+								if i < len(args) {
+									if ap := pathOf(args[i], paramName); ap != "" {
+										subst = replaceWord(subst, pn, ap)
+									}
+								}
+							}
+							if cl, has := located[k]; has && cl == subst {
+								matched = true
+							}
 							for i, pn := range cn.Params {
 								if locMentions(loc, pn) && i < len(args) {
 									r := rootOf(args[i])
@@ -260,4 +274,39 @@ func locMentions(loc, name string) bool {
 
 func isWordByte(b byte) bool {
 	return b == '_' || b >= 'a' && b <= 'z' || b >= 'A' && b <= 'Z' || b >= '0' && b <= '9'
+}
+
+// pathOf renders an SSA value as a contract-level path over the caller's
+// parameters ("p", "p.errs"), looking through loads and field addresses.
+func pathOf(v ssa.Value, paramName func(*ssa.Parameter) string) string {
+	switch x := v.(type) {
+	case *ssa.Parameter:
+		return paramName(x)
+	case *ssa.UnOp:
+		if x.Op.String() == "*" {
+			return pathOf(x.X, paramName)
+		}
+	case *ssa.FieldAddr:
+		b := pathOf(x.X, paramName)
+		if b == "" {
+			return ""
+		}
+		st := x.X.Type().Underlying().(*types.Pointer).Elem().Underlying().(*types.Struct)
+		return b + "." + st.Field(x.Field).Name()
+	}
+	return ""
+}
+
+func replaceWord(s, word, by string) string {
+	var b strings.Builder
+	for i := 0; i < len(s); {
+		if strings.HasPrefix(s[i:], word) && (i == 0 || !isWordByte(s[i-1])) && (i+len(word) == len(s) || !isWordByte(s[i+len(word)])) {
+			b.WriteString(by)
+			i += len(word)
+			continue
+		}
+		b.WriteByte(s[i])
+		i++
+	}
+	return b.String()
 }
